@@ -20,7 +20,7 @@ def eval_doc(args):
     import xmlschema
     from xml.etree import ElementTree as ET
     from xmlschema.validators.exceptions import XMLSchemaValidationError
-    s = _S.get(ver) or _S.setdefault(ver, _cls(ver)(docgen.SCHEMA))
+    s = _S.get(ver) or _S.setdefault(ver, _cls(ver)(docgen.schema_for(ver)))
     p = os.path.join(workdir, f'd{os.getpid()}.xml'); open(p, 'w').write(doc)
     sources = {'text': lambda: doc, 'bytes': lambda: doc.encode(), 'path': lambda: p, 'url': lambda: 'file://' + p, 'open-text': lambda: open(p), 'open-bin': lambda: open(p, 'rb'),
                'StringIO': lambda: io.StringIO(doc), 'etree': lambda: ET.parse(p), 'element': lambda: ET.parse(p).getroot(), 'resource': lambda: xmlschema.XMLResource(p)}
